@@ -115,9 +115,23 @@ FailedOwners(lg) ==
     \cup {TaskOfColl(lg[i].name) : i \in {j \in 1..Len(lg) : lg[j].ev = "ddl" /\ ~lg[j].ok /\ lg[j].kind = "dropcollection"}}
 Crashed(lg) == \E i \in 1..Len(lg) : lg[i].ev = "crash"
 AllTasks == {TaskList[i].id : i \in 1..Len(TaskList)}
+\* "stops emitting, checkpoint stays": once the owner of a failed call has been paused (effective task write) within a
+\* step, the same incarnation issues no further downstream write for that task's packs and no checkpoint write for it
+RECURSIVE QuietAfterPause(_, _, _, _)
+QuietAfterPause(lg, i, owners, paused) ==
+    IF i > Len(lg) THEN TRUE
+    ELSE LET x == lg[i] IN
+         IF x.ev = "crash" THEN TRUE
+         ELSE IF x.ev = "puttask" /\ x.ok /\ x.state = "Paused" /\ x.task \in owners
+                THEN QuietAfterPause(lg, i + 1, owners, paused \cup {x.task})
+         ELSE IF x.ev = "puttask" /\ x.ok /\ x.state # "Paused" THEN QuietAfterPause(lg, i + 1, owners, paused \ {x.task})
+         ELSE IF x.ev = "ack" /\ Len(x.ids) > 0 /\ KnownPack(x.ids[1]) /\ TaskOfStream(StreamOfPackId(x.ids[1])) \in paused THEN FALSE
+         ELSE IF x.ev = "putpos" /\ x.ok /\ x.task \in paused THEN FALSE
+         ELSE QuietAfterPause(lg, i + 1, owners, paused)
 C06Step(e) ==
     LET owners == FailedOwners(e.log)
                   \cup (IF e.op = "deliver" /\ e.res = "ok" /\ UnknownPart(e.s, Scripts[e.s][e.idx]) THEN {TaskOfStream(e.s)} ELSE {}) IN
+    /\ (e.op \in {"deliver"}) => QuietAfterPause(e.log, 1, owners, {})
     /\ (~Crashed(e.log) /\ e.op \in {"deliver"}) =>
       /\ \A t \in owners : StateIn(e.api, t).state = "Paused" /\ StateIn(e.api, t).reason       \* the owner is paused, with a reason
       \* nobody else changes state.  Known finding C06_batch_failure_pauses_trigger_task: when a batch mixing tasks fails,
